@@ -1,4 +1,5 @@
-"""C14 - DOE samples honour bounds, types, sample count and seed (library-independent pipeline)."""
+"""C14 - DOE samples honour bounds, types, sample count and seed (library-independent pipeline; the per-library wrapper glue,
+the count arithmetic and the seed handling are in harness/C14_wrap.py)."""
 from __future__ import annotations
 
 import numpy as np
@@ -10,13 +11,55 @@ from harness.common import _plain, _py, build_space, check_array, check_shape, e
 
 META = dict(
     bounds=dict(
-        quick="stub sampler returning S<=3 symbolic rows of [0,1]^d (d<=3) pushed through the real compute_doe / _pre_run pipeline; float variables with symbolic bounds l<u, or concrete bounds when an integer variable is present; integer bounds [0,5], [-3,4], [2,2]",
-        thorough="same with S<=4 and more layouts",
+        quick="(pipeline) stub sampler returning S<=3 symbolic rows of [0,1]^d (d<=3) pushed through the real compute_doe / _pre_run pipeline; float variables with symbolic "
+              "bounds l<u, or concrete bounds when an integer variable is present; integer bounds [0,5], [-3,4], [2,2]; DiagonalDOE n<=5, OATDOE/MorrisDOE d<=2, CustomDOE S=2.  "
+              "(wrapper glue, harness/C14_wrap.py) every third-party sampler replaced by a recording contract stub: OT_AXIAL/OT_FACTORIAL/OT_COMPOSITE with SYMBOLIC centers in "
+              "[1/64,63/64] and levels in [1/64,1] (documented: ]0,1[ and ]0,1]; d<=2, 1-2 levels; vector / single / scalar centers; stub = the documented point structure, and for d=1 with one level an ARBITRARY "
+              "matrix in the documented range), n_samples chosen by the solver in 1..count(2 levels)+1 (exact float64 count arithmetic), compute_doe on symbolic bounds and "
+              "on a float+integer space; OT_FULLFACT / PYDOE_FULLFACT: levels per direction chosen by the solver in 1..4 (d=1), 1..3 (d=2), n_samples chosen in 1..6 (d=1), "
+              "1..10 (d=2), 1..9 (d=3), the level kernel _compute_fullfact_levels for a SYMBOLIC integer n_samples < 9^d (d<=3) under the float contract of n ** (1/d), "
+              "compute_doe on 4 layouts; PYDOE_FF2N/PBDESIGN/BBDESIGN/LHS, SciPy Sobol/Halton/LHS/PoissonDisk/MC, OT_MONTE_CARLO/RANDOM/LHS/LHSC/OPT_LHS/SOBOL/HALTON/"
+              "REVERSE_HALTON/HASELGROVE/FAURE: n_samples 1-4, d<=3, the sampler's matrix SYMBOLIC in its documented range, histories of 1-3 calls whose seeds "
+              "(None / 7 / 11) are chosen by the solver, default and user-set initial seed; MorrisDOE n_samples chosen in 0..9 (d<=3), DiagonalDOE n_samples in 2..8",
+        thorough="same with S<=4 and more layouts; stratified designs d<=3, 1-3 levels, all center forms, range contract also with 2 levels, n_samples up to count(3 levels)+1; "
+                 "full factorial d<=4 (kernel: n < 13^d for d<=2, 11^d for d<=4), levels 1..4 for d=2, 1..3 for d=3, n_samples up to 26 (d=2) / 28 (d=3); Morris/Diagonal n_samples up to 12/16; "
+                 "a few 3-call histories and 3-sample matrices more",
     ),
-    outside=["the samplers themselves (SciPy qmc, OpenTURNS, pyDOE, RNG code): that they return points of the unit cube, their sample counts and seed determinism are assumptions, not results",
-             "CustomDOE file parsing", "the level computation of full-factorial designs (int(n ** (1/d)) is a float operation)"],
-    stubs=["oat_doe.array -> object-dtype array (oat harness)", "diagonal_doe.hstack -> object-dtype array of the same floats (diagonal harness)", "unit sampler -> symbolic matrix in [0,1]^{S x d}", "float bounds injected into Variable.__dict__"],
-    assumptions=["unit samples lie in [0,1]", "lb <= ub, integer bounds integral"],
+    outside=["the samplers themselves (SciPy qmc, OpenTURNS, pyDOE3, numpy RandomState: compiled / RNG code): that they honour the documented contracts used by the stubs (shape = "
+             "requested count x dimension, entries in the documented range, the documented point structure of Axial/Factorial/Composite/Box/fullfact), their space-filling "
+             "quality and their determinism for a given seed are ASSUMPTIONS of this check; they are validated only on the concrete runs of the differential self-test and of "
+             "the counterexample replays (obligations 'environment contract: ...')",
+             "scipy PoissonDisk may return fewer than n_samples points for a large radius (documented by SciPy): only the forwarding of n_samples is checked",
+             "PYDOE_CCDESIGN (leaves the unit cube by design with its default alpha; not in the quantifier's list), OT_SOBOL_INDICES (not in the list)",
+             "MorrisDOE with doe_algo_name='CustomDOE' and n_samples>0: the given initial points win and n_samples is ignored (9 samples for 3 requested on the unchanged tree); the "
+             "property is silent on two conflicting user-supplied counts: not asserted",
+             "whether calls WITH an explicit seed advance the default seed (Seeder docstring: every call; property anchor: 'unless a seed is given'): both readings accepted",
+             "which uniform draw of OT_MONTE_CARLO lands in which cell of the matrix (any arrangement is a Monte Carlo sample): only 'every entry is a draw and every draw is used'",
+             "the value given to a direction with a single level by the full-factorial designs (0.5 on the unchanged tree): only that it lies in [0,1]",
+             "float64 rounding: the sliver ]1 - 2^-40, 1[ of LHS points for OT_LHSC (division by the float value of 1.0 / n), n ** (1/d) beyond n = 10^4",
+             "stratified designs: d > 3, more than 3 levels, n_samples beyond the smallest 3 designs; the ValueError branches for malformed centers / levels",
+             "CustomDOE file parsing"],
+    stubs=["oat_doe.array -> object-dtype array (oat harness)", "diagonal_doe.hstack -> object-dtype array of the same floats (diagonal harness)", "unit sampler -> symbolic matrix in [0,1]^{S x d}", "float bounds injected into Variable.__dict__",
+           "OTAxialDOE/OTFactorialDOE/OTCompositeDOE._ALGO_CLASS (openturns.Axial/Factorial/Composite) -> recorder; generate() returns, for the arguments (center, levels) IT RECEIVED, "
+           "the documented structure (the centre, then centre +- level_k along each axis / at each vertex: 1 + 2 n L, 1 + L 2^n, 1 + L (2n + 2^n) points) or, 'range' contract, "
+           "an arbitrary matrix of that shape with |entry - center_j| <= some level; concretely the real class is called and must return exactly that structure",
+           "ot_full_factorial_doe.Box -> the regular grid prod(levels + 2) x n of [0,1] including the bounds, first direction fastest; pydoe_full_factorial_doe.fullfact -> coded "
+           "levels 0..k-1 of every combination, first factor fastest; concretely the real functions are called and compared with these grids",
+           "n_samples ** (1.0 / dimension) in _compute_fullfact_levels (the only float operation of the kernel): n_samples is a harness object around an integer-valued symbolic "
+           "real whose power obeys 'int(n ** (1/d)) == r, or r - 1 when n == r^d' (r the exact integer root); validated exhaustively for n <= 10^4, d <= 4 in concrete mode",
+           "PyDOELibrary.__NAMES_TO_FUNCTIONS[bbdesign|ff2n|pbdesign] -> recorder returning a symbolic matrix of coded levels in [-1,1]; [lhs] -> recorder returning a symbolic "
+           "samples x n matrix in [0,1]; pydoe.RandomState -> recording subclass of numpy's RandomState (both modes)",
+           "SciPyDOE.__NAMES_TO_CLASSES[*] (Sobol, Halton, LatinHypercube, PoissonDisk, _MonteCarlo) -> recorder engine; random(n) returns a symbolic n x d matrix in [0,1]; "
+           "concretely a recording subclass of the real engine",
+           "openturns.RandomGenerator.SetSeed -> recorder (calls the real one); BaseOTDOE._STANDARD_UNIFORM_DISTRIBUTION.getSample(k) -> symbolic k x 1 matrix in [0, 1 - 2^-40]; "
+           "LHSExperiment / SimulatedAnnealingLHS / MonteCarloLHS -> recorders, generate() returns a symbolic size x dimension matrix in [0, 1 - 2^-40]; the five low-discrepancy "
+           "_ALGO_CLASS -> recorders tagged with the real class, generate(n) returns a symbolic n x d matrix in [0,1]; concretely pass-through to the real objects",
+           "module-level numpy.array / numpy.full of the OpenTURNS algorithm modules -> value-preserving object-dtype storage (symbolic mode only)",
+           "MorrisDOE counts: inner PYDOE_LHS through the lhs recorder with initial points in [0, 1/2]^d (no fork on the OAT directions, which the oat harness covers)"],
+    assumptions=["unit samples lie in [0,1]", "lb <= ub, integer bounds integral",
+                 "the third-party samplers honour the contracts listed under stubs (documented by OpenTURNS / SciPy / pyDOE3) and are deterministic for a given seed",
+                 "int(a / b) of the stratified count arithmetic is evaluated in real float64 on concrete solver-chosen n (no abstraction); for the full-factorial kernel the float "
+                 "power is abstracted by the contract above"],
 )
 
 LAYOUTS = {
@@ -274,3 +317,13 @@ def crosshair_targets(tier):
 
 
 HARNESSES = {"compute_doe": h_compute_doe, "execute": h_execute, "custom": h_custom, "diagonal": h_diagonal, "oat": h_oat}
+
+# ---- extension: per-library wrapper glue, sample-count arithmetic, seed handling (harness/C14_wrap.py) -------------------------------
+from harness import C14_wrap as _wrap  # noqa: E402
+
+HARNESSES.update(_wrap.HARNESSES)
+_pipeline_configs = configs
+
+
+def configs(tier):  # noqa: F811
+    return _pipeline_configs(tier) + _wrap.configs(tier)
